@@ -4,7 +4,8 @@ E2: every DAG with ordered base lists up to n nodes is built as real
 InterfaceClass objects (and, smaller, as class hierarchies with declarations);
 oracles: textbook C3 and CPython's type.mro() on a mirrored hierarchy,
 cross-checked on every DAG. Settings: default, strict=, use_legacy_ro=, and
-the two environment switches in separate worker processes.
+the environment switches (strict, legacy, log-changed, track-bad) in separate
+worker processes; the same DAGs built from falsy interfaces.
 """
 import gc
 import itertools
@@ -24,6 +25,17 @@ if os.environ.get('ZOPE_INTERFACE_LOG_CHANGED_IRO'):
     logging.getLogger('zope.interface.ro').setLevel(logging.CRITICAL)    # keep the reports off stderr
 MODE = ('strict' if os.environ.get('ZOPE_INTERFACE_STRICT_IRO') else
         'legacy' if os.environ.get('ZOPE_INTERFACE_USE_LEGACY_IRO') else 'default')
+
+
+class FalsyInterfaceClass(InterfaceClass):
+    """Interfaces that are false in a boolean context (an InterfaceClass
+    subclass is free to define __len__ or __bool__)."""
+
+    def __bool__(self):
+        return False
+
+
+IC = FalsyInterfaceClass if os.environ.get('VERIF_C03_FALSY') else InterfaceClass
 
 
 def _graph(spec, names):
@@ -156,8 +168,8 @@ def eval_dag(dag):
     incons = 0
     for i, bs in enumerate(dag):
         try:
-            x = InterfaceClass('N%d' % i, tuple(I[b] for b in bs) or (Interface,),
-                               {'__module__': wmod()})
+            x = IC('N%d' % i, tuple(I[b] for b in bs) or (Interface,),
+                   {'__module__': wmod()})
         except ro.InconsistentResolutionOrderError:
             if MODE == 'strict' and exps[i] is None:
                 # correct refusal; the DAG ends here.  The explicit arguments
@@ -287,7 +299,11 @@ ENVS = {'default': None,
         'strict': {'ZOPE_INTERFACE_STRICT_IRO': '1'},
         'legacy': {'ZOPE_INTERFACE_USE_LEGACY_IRO': '1'},
         # reporting orders that differ from the legacy one must not change any order
-        'log': {'ZOPE_INTERFACE_LOG_CHANGED_IRO': '1'}}
+        'log': {'ZOPE_INTERFACE_LOG_CHANGED_IRO': '1'},
+        # recording inconsistent orders must not change any order or verdict either
+        'track': {'ZOPE_INTERFACE_TRACK_BAD_IRO': '1'},
+        # same DAGs made of interfaces that are false in a boolean context
+        'falsy': {'VERIF_C03_FALSY': '1'}}
 
 
 def run(ctx):
@@ -310,10 +326,10 @@ def run(ctx):
                  for ds in itertools.product(dopts, repeat=cn)]
     jobs += [('cls', c) for c in chunks(cls_items, 300)]
     for impl in ('c', 'py'):
-        for mode in ('default', 'strict', 'legacy', 'log'):
+        for mode in ('default', 'strict', 'legacy', 'log', 'track', 'falsy'):
             if mode != 'default' and impl == 'py' and quick:
                 continue
-            if mode == 'log' and quick:
+            if mode in ('log', 'track', 'falsy') and quick:
                 jobs_mode = [j for j in jobs if j[0] == 'dag']
             else:
                 jobs_mode = jobs
